@@ -7,7 +7,10 @@ package store
 // Two real nodes: leader A and follower B (read-only or voter). Generated:
 // numbers and sizes of the write requests in every phase, whether B has a
 // retained staged WAL (membership change on A right before B.Snapshot()),
-// whether A loads a different database while B is cut off, trailing logs.
+// whether A loads a different database while B is cut off, how many unreaped
+// incremental snapshots the leader has when B installs (B then receives a full
+// snapshot that carries WAL files), how many incremental snapshots B adds, and
+// whether B's store is reaped afterwards.
 // B is partitioned through the harness network layer (it stays open, so its
 // staging directory is not wiped by a restart), A writes and snapshots with 1
 // trailing log, B is reconnected and has to install A's snapshot; then more
@@ -32,7 +35,7 @@ import (
 
 func TestVerif_C04_Install(t *testing.T) {
 	rec := vstat.New(t, "C04", "install",
-		"two real nodes; generated write phases; follower B optionally keeps a staged WAL from a snapshot whose persist raft skipped (membership change just before), is partitioned (stays open), leader writes / optionally loads / snapshots with 1 trailing log, B reconnects and installs the snapshot, more writes, incremental snapshot on B; oracle = B equals model, and a copy of B's directory restores to B's applied state; non-trivial = B held a retained staged WAL when it installed a snapshot and took a snapshot afterwards; distinct = hash of the generated phases")
+		"two real nodes; generated write phases; follower B optionally keeps a staged WAL from a snapshot whose persist raft skipped (membership change just before), is partitioned (stays open), leader writes / optionally loads / snapshots with 1 trailing log, B reconnects and installs the snapshot, more writes, incremental snapshot on B; oracle = B equals model, and a copy of B's directory restores to B's applied state; non-trivial = B installed a snapshot and snapshotted afterwards, and either held a retained staged WAL at the install or received a full-with-WALs snapshot and had its store reaped; distinct = hash of the generated phases")
 	rapid.Check(t, func(rt *rapid.T) { c04InstallCase(rt, rec) })
 }
 
@@ -71,6 +74,7 @@ func c04InstallCase(rt *rapid.T, rec *vstat.Rec) {
 
 	var hist []string
 	sigShape := false
+	stamp := 0
 	fail := func(sig, format string, args ...any) {
 		rt.Fatalf("%s", rec.Violation(sig, "%s | history: %s", fmt.Sprintf(format, args...), strings.Join(hist, " ; ")))
 	}
@@ -93,6 +97,14 @@ func c04InstallCase(rt *rapid.T, rec *vstat.Rec) {
 			} else {
 				bt = g8aSmallBatch(rt)
 			}
+			// every request also rewrites all rows of a fixed-shape table, so
+			// that WALs replayed out of order or skipped show up as old values
+			// even when the page structure never changes
+			stamp++
+			bt = append(bt,
+				"CREATE TABLE IF NOT EXISTS stamp (id INTEGER PRIMARY KEY, v INTEGER, pad TEXT)",
+				"INSERT OR IGNORE INTO stamp(id, v, pad) WITH RECURSIVE n(i) AS (SELECT 1 UNION ALL SELECT i+1 FROM n WHERE i < 120) SELECT i, 0, 'xxxxxxxxxxxxxxxxxxxxxxxxxxxxxxxxxxxxxxxx' FROM n",
+				fmt.Sprintf("UPDATE stamp SET v = %d", stamp))
 			if err := g8aExec(a, bt); err != nil {
 				inconclusive("write-error")
 				return false
@@ -130,6 +142,11 @@ func c04InstallCase(rt *rapid.T, rec *vstat.Rec) {
 	hist = append(hist, fmt.Sprintf("JOIN(b,voter=%v)", voter))
 	if !writes("p1", 1, 3) || !caughtUp() {
 		return
+	}
+	if err := a.Snapshot(0); err != nil {
+		hist = append(hist, "A.SNAP(err)")
+	} else {
+		hist = append(hist, "A.SNAP(full)")
 	}
 	if err := b.Snapshot(0); err != nil {
 		hist = append(hist, "B.SNAP(err)")
@@ -189,22 +206,29 @@ func c04InstallCase(rt *rapid.T, rec *vstat.Rec) {
 		model.ReplaceWithFile(p)
 		hist = append(hist, "A.LOAD"+spec.String())
 	}
-	if !writes("p3", 1, 3) {
-		return
+	// the leader's store collects incrementals that are not reaped, so that the
+	// snapshot B installs is a full database plus WAL files
+	rounds := rapid.IntRange(1, 3).Draw(rt, "leaderSnapshotRounds")
+	for r := 0; r < rounds; r++ {
+		if !writes("p3", 1, 2) {
+			return
+		}
+		if err := a.Snapshot(1); err != nil {
+			hist = append(hist, "A.SNAP(err="+err.Error()+")")
+			inconclusive("leader-snapshot-failed")
+			return
+		}
+		hist = append(hist, "A.SNAP(trailing=1)")
 	}
-	if err := a.Snapshot(1); err != nil {
-		hist = append(hist, "A.SNAP(err="+err.Error()+")")
-		inconclusive("leader-snapshot-failed")
-		return
-	}
-	hist = append(hist, "A.SNAP(trailing=1)")
 	if !writes("p4", 1, 2) {
 		return
 	}
 	restoresBefore := stats.Get(numRestores).String()
 	stagedAtInstall := 0
+	stagedNames := ""
 	if w, _ := b.StagedWALs(); w != nil {
 		stagedAtInstall = len(w)
+		stagedNames = fmt.Sprint(w)
 	}
 	lb.SetBlocked(false)
 	hist = append(hist, "HEAL(b)")
@@ -214,33 +238,77 @@ func c04InstallCase(rt *rapid.T, rec *vstat.Rec) {
 	installed := stats.Get(numRestores).String() != restoresBefore
 	stagedAfterInstall := 0
 	if w, _ := b.StagedWALs(); w != nil {
-		stagedAfterInstall = len(w)
+		// only files that were already staged before the install count
+		for _, f := range w {
+			if strings.Contains(stagedNames, f) {
+				stagedAfterInstall++
+			}
+		}
 	}
 	hist = append(hist, fmt.Sprintf("B caught up (install=%v, staged %d->%d)", installed, stagedAtInstall, stagedAfterInstall))
 	if !checkB("after reconnecting", "C04/follower-differs-after-install") {
 		return
 	}
 
-	// ---- more writes, then B snapshots again
-	if !writes("p5", 1, 3) || !caughtUp() {
-		return
-	}
-	incBefore := b.numIncSnapshots.Load()
-	fullBefore := b.numFullSnapshots
-	snapErr := b.Snapshot(0)
-	kind := "none"
-	if b.numIncSnapshots.Load() > incBefore {
-		kind = "inc"
-	} else if b.numFullSnapshots > fullBefore {
-		kind = "full"
-	}
-	hist = append(hist, fmt.Sprintf("B.SNAP(%s,err=%v)", kind, snapErr != nil))
-	sigShape = retained && installed && stagedAtInstall > 0 && snapErr == nil && kind == "inc"
+	// from here on every failure of this shape is the stale staged WAL's
+	sigShape = retained && installed && stagedAtInstall > 0 && stagedAfterInstall > 0
 
-	nontrivial := retained && installed && snapErr == nil
+	// did B receive a full snapshot that carries WAL files?
+	fullWithWALs := false
+	if dbs, _ := filepath.Glob(filepath.Join(b.snapshotDir, "*", "*.db")); dbs != nil {
+		for _, d := range dbs {
+			if w, _ := filepath.Glob(filepath.Join(filepath.Dir(d), "*.wal")); len(w) > 0 {
+				fullWithWALs = true
+			}
+		}
+	}
+
+	// ---- more writes and incremental snapshots on B
+	var snapErr error
+	kind := "none"
+	bRounds := rapid.IntRange(1, 3).Draw(rt, "followerSnapshotRounds")
+	for r := 0; r < bRounds; r++ {
+		if !writes("p5", 1, 2) || !caughtUp() {
+			return
+		}
+		incBefore := b.numIncSnapshots.Load()
+		fullBefore := b.numFullSnapshots
+		snapErr = b.Snapshot(0)
+		kind = "none"
+		if b.numIncSnapshots.Load() > incBefore {
+			kind = "inc"
+		} else if b.numFullSnapshots > fullBefore {
+			kind = "full"
+		}
+		hist = append(hist, fmt.Sprintf("B.SNAP(%s,err=%v)", kind, snapErr != nil))
+	}
+	reaped := false
+	if rapid.IntRange(0, 2).Draw(rt, "reapB") != 0 {
+		n, w, err := b.Reap()
+		switch {
+		case err != nil && strings.Contains(err.Error(), "MSRW conflict"):
+			hist = append(hist, "B.REAP(busy)")
+		case err != nil:
+			fail(sig("C04/reap-error"), "explicit reap of the follower's store failed: %v", err)
+		default:
+			reaped = true
+			hist = append(hist, fmt.Sprintf("B.REAP(%d,%d)", n, w))
+		}
+	}
+
+	nontrivial := installed && snapErr == nil && (retained || (fullWithWALs && reaped))
 	rec.Case(nontrivial, strings.Join(hist, ";"))
 	if retained {
 		rec.Label("b-staged-wal-retained")
+	}
+	if fullWithWALs {
+		rec.Label("b-installed-full-with-wals")
+	}
+	if reaped {
+		rec.Label("b-store-reaped")
+	}
+	if fullWithWALs && reaped && snapErr == nil {
+		rec.Label("reap-of-installed-full-with-wals-after-own-incrementals")
 	}
 	if installed {
 		rec.Label("b-installed-snapshot")
@@ -292,7 +360,12 @@ func c04InstallCase(rt *rapid.T, rec *vstat.Rec) {
 		return
 	}
 	b = b2
-	hist = append(hist, "RESTART(b)")
+	if rapid.Bool().Draw(rt, "forceRestore") {
+		b.ForceSnapshotRestore()
+		hist = append(hist, "RESTART(b,forced restore)")
+	} else {
+		hist = append(hist, "RESTART(b)")
+	}
 	if err := b.Open(); err != nil {
 		s := sig("C04/follower-restart-failed")
 		if rec.KnownHit(s, known) {
